@@ -157,6 +157,54 @@ pub fn c20(ctx: &Ctx) -> Report {
             }
         }
     });
+    // long scripts: a complete envelope (through a 20 s phase at 100 Hz where the value maps to the upper bound)
+    par_ranges(ctx, &mut rep, 12 * 4, 12 * 4, |_, lo, hi, lc| {
+        for idx in lo..hi {
+            let (v, tb, sb) = menu[(idx / 4) as usize];
+            let which = idx % 4;
+            let fs = 100.0f32;
+            let mk = |val: f32| -> Input {
+                match which {
+                    0 => Input::Attack(val.into()),
+                    1 => Input::Decay(val.into()),
+                    2 => Input::Sustain(val.into()),
+                    _ => Input::Release(val.into()),
+                }
+            };
+            let bound = if which == 2 { sb } else { tb };
+            let mut a = Adsr::new(fs);
+            let mut b = Adsr::new(fs);
+            for x in [&mut a, &mut b] {
+                x.set_input(Input::Sustain(0.5.into()));
+            }
+            a.set_input(mk(v));
+            b.set_input(mk(bound));
+            let n = (bound.max(0.001) as f64 * fs as f64 * if which == 2 { 0.0 } else { 1.0 }) as u64 + 2600;
+            let mut ticks = 0u64;
+            let mut bad: Option<String> = None;
+            'outer: for (op, cnt) in [("gate_on", 1u64), ("tick", n), ("gate_off", 1), ("tick", n), ("gate_on", 1), ("tick", 7), ("gate_off", 1), ("tick", 7)] {
+                for _ in 0..cnt {
+                    for x in [&mut a, &mut b] {
+                        match op {
+                            "tick" => x.tick(),
+                            "gate_on" => x.gate_on(),
+                            _ => x.gate_off(),
+                        }
+                    }
+                    ticks += 1;
+                    lc.count("twin_steps", 1);
+                    if a.value().to_bits() != b.value().to_bits() {
+                        bad = Some(format!("after {} operations of [gate_on, tick x {}, gate_off, tick x {}, ...]: {:?} vs {:?}", ticks, n, n, a.value(), b.value()));
+                        break 'outer;
+                    }
+                }
+            }
+            if let Some(d) = bad {
+                lc.violation(viol("twin-envelope-differs", format!("envelope configured with {} = {:?} and with the bound {:?} differ {}", ["attack", "decay", "sustain", "release"][which as usize], v, bound, d), json!({"fs": fs}), vec![format!("twinlong:{}:{:?}:{:?}", ["attack", "decay", "sustain", "release"][which as usize], v, bound), "gate_on".into(), format!("tick*{}", n), "gate_off".into(), format!("tick*{}", n), "gate_on".into(), "tick*7".into(), "gate_off".into(), "tick*7".into()]));
+            }
+            lc.count("twin_long_scripts", 1);
+        }
+    });
     rep.evaluations += 12 * 4 * 3 * nscripts;
     rep.transitions += 12 * 4 * 3 * nscripts * depth as u64;
     rep.traces += 12 * 4 * 3 * nscripts * depth as u64;
@@ -249,10 +297,12 @@ pub fn c20(ctx: &Ctx) -> Report {
 pub fn replay(config: &Value, ops: &[String]) -> Vec<String> {
     let mut out = Vec::new();
     let mut twin: Option<(Adsr, Adsr)> = None;
+    let mut step_no = 0u64;
     let mut rx: Option<(MonoMidiReceiver, MonoMidiReceiver, u8)> = None;
     let mut q = Quantizer::new();
     q.forbid(&[Note::new(9), Note::new(10), Note::new(11), Note::new(3)]);
-    for o in ops {
+    let expanded: Vec<String> = expand_ops(ops).into_iter().flat_map(|(o, n)| std::iter::repeat(o).take(n as usize)).collect();
+    for o in &expanded {
         let parts: Vec<&str> = o.split(':').collect();
         match parts[0] {
             "time" => {
@@ -281,15 +331,17 @@ pub fn replay(config: &Value, ops: &[String]) -> Vec<String> {
                 }
                 out.push(format!("{}({}) -> scale {:012b}", parts[0], n, q.verif_allowed()));
             }
-            "twin" => {
+            "twin" | "twinlong" => {
                 let fs = config["fs"].as_f64().unwrap_or(1000.0) as f32;
                 let mut a = Adsr::new(fs);
                 let mut b = Adsr::new(fs);
                 for x in [&mut a, &mut b] {
-                    x.set_input(Input::Attack(0.003.into()));
-                    x.set_input(Input::Decay(0.002.into()));
+                    if parts[0] == "twin" {
+                        x.set_input(Input::Attack(0.003.into()));
+                        x.set_input(Input::Decay(0.002.into()));
+                        x.set_input(Input::Release(0.003.into()));
+                    }
                     x.set_input(Input::Sustain(0.5.into()));
-                    x.set_input(Input::Release(0.003.into()));
                 }
                 let v = parse_f32(parts[2]);
                 let bd = parse_f32(parts[3]);
@@ -314,7 +366,13 @@ pub fn replay(config: &Value, ops: &[String]) -> Vec<String> {
                         }
                     }
                     let bad = a.value().to_bits() != b.value().to_bits();
-                    out.push(format!("{:<9} -> {:?} / {:?}{}", parts[0], a.value(), b.value(), if bad { "   !! C20 [twin-envelope-differs]" } else { "" }));
+                    step_no += 1;
+                    if bad || step_no < 8 || step_no % 500 == 0 {
+                        out.push(format!("#{:<6} {:<9} -> {:?} / {:?}{}", step_no, parts[0], a.value(), b.value(), if bad { "   !! C20 [twin-envelope-differs]" } else { "" }));
+                    }
+                    if bad {
+                        return out;
+                    }
                 }
             }
             "byte" => {
